@@ -61,7 +61,7 @@ def generate(prop, seed, tier):
             ops.append({"op": "cond_sample_small", "dim": 1, "given_q": S.pick([0.3, 0.5, 0.8, 0.95]), "n": S.pick([1, 2, 5]), "reps": 2500, "seed0": S.sub("css", k) % 100000, "pin": S.sub("csp", k)})
             continue
         if op == "empirical_with_sample":
-            ops.append({"op": "empirical_with_sample", "n": S.pick([1000, 150000, 250001]), "q": [core.r6(S.uni(0.3, 0.9)), core.r6(S.uni(0.3, 0.9))], "pin": S.sub("ews", k)})
+            ops.append({"op": "empirical_with_sample", "n": S.pick([1000, 150000, 250001]), "q": [core.r6(S.uni(0.3, 0.9)), core.r6(S.uni(0.3, 0.9))], "pin": S.sub("ews", k), "points": S.wpick([("float", 3), ("int_array", 1), ("int_list", 1), ("float_list", 1)])})
             continue
         if op == "cache_iform_sample":
             # history: the cached sample exists, a contour is computed, the sample is looked at again
@@ -80,6 +80,11 @@ def generate(prop, seed, tier):
             o = {"op": op, "dim": dim, "given_q": S.pick(GIVEN_Q if dim == 1 else [0.05, 0.3, 0.5, 0.8, 0.95]), "seed": S.pick([None, S.sub("cs", k) % 100000])}
             if op == "cond_sample":
                 o["n"] = S.pick([20000, 100000])
+                if dim == 1 and S.chance(0.3):
+                    # another live model (other parameters) is asked first, for the very same conditioning value
+                    o["n"] = 20000
+                    o["other_first"] = {"hs_scale": core.r6(S.uni(1.3, 1.8)), "alpha_s": core.r6(S.uni(1.2, 1.6)), "beta_s": core.r6(S.uni(0.6, 0.85))}
+                    o["given_literal"] = S.pick([1.0, 2.0, 3.0, 4.0, 5.0])
             if op == "cond_cdf":
                 o["levels"] = [core.r6(S.uni(0.02, 0.98)) for _ in range(2)]
             if op == "cond_icdf":
@@ -415,13 +420,28 @@ def _execute(prop, scen):
                             return run
             elif k in ("cond_sample", "cond_cdf", "cond_icdf"):
                 dim = op["dim"]
-                g = given_value(ref, dim, op["given_q"])
+                g = given_value(ref, dim, op["given_q"]) if op.get("given_literal") is None else float(op["given_literal"])
                 ok, c_star, m0 = in_domain(ref, dim, g)
                 if not ok:
                     run.count("outside_documented_sampler_domain")
                     run.event(k, [dim, op["given_q"]], "outside-domain")
                     continue
                 site = f"dim{dim}"
+                if k == "cond_sample" and op.get("other_first"):
+                    of = op["other_first"]
+                    uni2 = copy.deepcopy(uni)
+                    p2 = uni2["params"]
+                    p2["mode"] = "drawn"
+                    p2["hs"] = [ref.hs[0] * of["hs_scale"], ref.hs[1], ref.hs[2]]
+                    p2["alpha_s"] = [ref.a_par[0] * of["alpha_s"]] + list(ref.a_par[1:])
+                    p2["beta_s"] = [ref.b_par[0] * of["beta_s"]] + list(ref.b_par[1:])
+                    t2 = build(uni2)
+                    try:
+                        t2.conditional_sample(2000, dim, [g], random_state=op["seed"])
+                    except Exception:  # noqa: BLE001 - the other model's own business
+                        pass
+                    run.count("probe:another-model-asked-first-at-the-same-conditioning-value")
+                    site = f"dim{dim}/after-another-model"
                 if k == "cond_sample":
                     x = np.asarray(api(t.conditional_sample, op["n"], dim, [g], random_state=op["seed"]), dtype=float)
                     run.event(k, [dim, op["given_q"], op["n"], op["seed"]], x)
@@ -557,7 +577,12 @@ def _execute(prop, scen):
                 h = float(ref.hs_ppf(op["q"][0]))
                 tz = float(ref.tz_ppf(op["q"][1], h))
                 pts = np.array([[h, tz], [h * 1.3, tz * 1.1]])
-                got = np.asarray(api(t.empirical_cdf, pts, sample=smp), dtype=float)
+                pk = op.get("points", "float")
+                if pk.startswith("int"):
+                    # whole numbers, typed as integers (Hs = 2 m, Tz = 7 s is how such points get written)
+                    pts = np.ceil(pts).astype(int)
+                pts_arg = pts.tolist() if pk.endswith("list") else pts
+                got = np.asarray(api(t.empirical_cdf, pts_arg, sample=smp), dtype=float)
                 own = np.array([np.mean(np.all(smp <= p_, axis=1)) for p_ in pts])
                 run.event(k, [op["n"], op["q"]], got)
                 run.count("probe:empirical-cdf-with-caller-sample")
